@@ -7,7 +7,7 @@ usage: seeded_matrix.py [<ID>-m<k> ...]            on /repo itself (git -C /repo
        seeded_matrix.py --merge"""
 import json, os, re, subprocess, sys, time
 SEEDED = "/verif/seeded"
-EXTRA = {"C19": ["C18"], "C18": ["C19"], "C01": ["C10", "C11", "C19", "C09"], "C02": ["C03", "C09"], "C10": ["C01", "C11"], "C06": ["C05", "C20"], "C17": ["C15", "C14", "C01"], "C16": ["C20"], "C09": ["C01"], "C11": ["C12"], "C07": ["C20"]}
+EXTRA = {"C19": ["C18"], "C18": ["C19"], "C01": ["C10", "C11", "C19", "C09"], "C02": ["C03", "C09"], "C10": ["C18", "C01", "C11"], "C06": ["C05", "C20"], "C17": ["C15", "C14", "C01"], "C16": ["C20"], "C09": ["C01"], "C11": ["C12"], "C07": ["C20"]}
 REPO = os.environ.get("MATRIX_REPO", "/repo")
 def sh(cmd, **kw): return subprocess.run(cmd, shell=True, capture_output=True, text=True, **kw)
 def merge():
